@@ -12,6 +12,7 @@ JAEGER_TUPLES = {"Log": ["timestamp", "fields"], "SpanRef": ["kind", "trace_id_l
 DATADOG_V04 = {"trace_id", "span_id", "parent_id", "name", "service", "resource", "type", "start", "duration", "error",
                "meta", "metrics", "meta_struct", "span_links"}
 DATADOG_REQUIRED = {"trace_id", "span_id", "name", "service", "resource", "start", "duration"}
+DATADOG_TYPES = {"trace_id": "u64", "span_id": "u64", "parent_id": "u64", "start": "i64", "duration": "i64"}
 DATADOG_WIRE = {"name": "name", "service": "service", "type": "trace_type", "resource": "resource", "start": "start",
                 "duration": "duration", "meta": "meta", "span_id": "span_id", "trace_id": "trace_id", "parent_id": "parent_id"}
 
@@ -111,6 +112,25 @@ def jaeger(ctx, facts, rule_f, rule_w):
         ok = got == {k: [v] for k, v in JAEGER_SPAN_IDS.items()}
         ctx.check(ok, rule_w, g.path, g.span, "thrift field ids of Span match jaeger.thrift (1 traceIdLow ... 11 logs)", "%s" % got,
                   "written %s, schema %s" % (got, JAEGER_SPAN_IDS), extra="span-ids")
+        # an optional field is left out only when ITS OWN list is empty
+        mism, n_cond = [], 0
+        for sb, blk in enumerate(g.blocks):
+            t = blk["term"]
+            if blk["cleanup"] or t["k"] != "switch" or t["discr_ty"] != "bool" or t["discr"]["k"] == "const":
+                continue
+            csrc = data(prov.of_operand(g, t["discr"]))
+            cnames = sorted({x.path[0].lstrip(".") for x in csrc if x.kind == "param" and x.key == 1 and x.path})
+            if not cnames:
+                continue
+            for bb in g.calls_re(r"thrift_struct::Field::new$", cleanup=False):
+                if any(g.guarded([bb], {(sb, d, lab)}) for d, lab in g.edges(sb)):
+                    n_cond += 1
+                    fid = const_value(g, g.term(bb)["args"][0])
+                    if got.get(fid) != cnames:
+                        mism.append((fid, got.get(fid), cnames))
+        ctx.check(not mism, rule_w, g.path, g.span, "an optional Span field is omitted only when its own list is empty (the test guarding field N reads the "
+                  "struct field written as N)", "%d conditional fields" % n_cond,
+                  "field id / written from / presence tested on: %s -- a record whose tested list is empty loses the other list" % mism, extra="span-optional")
     conv = [g for p, g in facts.fns.items() if g.crate == "fastrace_jaeger" and "From<fastrace_jaeger::thrift::Tag>" in p and p.endswith("::from")]
     if conv:
         g = conv[0]
@@ -214,6 +234,17 @@ def datadog(ctx, facts, rule_f, rule_w):
                   "pairs %s; keys outside the schema (ignored by the agent): %s" % (pairs, sorted(extra)),
                   "pairs %s, required %s" % (pairs, sorted(DATADOG_REQUIRED)), extra="dd-keys")
         ctx.analysed.setdefault("E", {})["datadog_keys_outside_v04_schema"] = sorted(extra)
+        # integer widths / signedness of the v0.4 schema: ids are uint64, start and duration int64 (rmp-serde writes a
+        # negative i64 as a msgpack negative integer, which is not an id)
+        adt = facts.adts.get("fastrace_datadog::DatadogSpan")
+        ftys = {f["name"]: f["ty"] for f in adt["variants"][0]["fields"]} if adt else {}
+        wrong = {k: ftys.get(pairs[k][0]) for k, want in DATADOG_TYPES.items()
+                 if k in pairs and pairs[k] and ftys.get(pairs[k][0]) != want}
+        ctx.check(bool(ftys) and not wrong and all(k in pairs for k in DATADOG_TYPES), rule_w, "fastrace_datadog::DatadogSpan", adt["span"] if adt else "-",
+                  "the integer keys are serialised from fields of the schema's type (trace_id/span_id/parent_id: u64, start/duration: i64)",
+                  "%s" % {k: ftys.get(pairs[k][0]) for k in DATADOG_TYPES if k in pairs},
+                  "key -> Rust type written: %s, schema: %s (an id with the top bit set would go out as a negative integer)" % (wrong, DATADOG_TYPES),
+                  extra="dd-types")
     se = facts.fn("fastrace_datadog::DatadogReporter::serialize")
     if se is not None:
         lead = any(s["k"] == "assign" and s["rv"]["k"] in ("agg", "use", "repeat") and any(
